@@ -279,7 +279,8 @@ func (g *Gen) randomAdmin() {
 	case 4:
 		g.tx("UpdateTokenController", newKV().set("from", hs(g.roleHolderOr("owner", pw))).set("new", hs(g.newHolder())))
 	case 5:
-		sz := []uint64{0, 1, 131, 132, 133, 8000, 1 << 40}[g.pick(7)]
+		szs := append([]uint64{0, 1, 131, 132, 133, 8000, 1 << 40}, u64Edges...)
+		sz := szs[g.pick(len(szs))]
 		g.tx("UpdateMaxMessageBodySize", newKV().set("from", hs(g.roleHolderOr("owner", pw))).set("size", fmt.Sprint(sz)))
 	case 6:
 		d := g.domain()
@@ -480,7 +481,7 @@ func (g *Gen) randomReceive(from string) {
 		msg = g.inboundBurn(src, nonce, bigPool(g), g.pick(len(g.acctRaw)))
 	} else {
 		body := g.randBytes(g.pick(200))
-		msg = buildMessage(0, src, 4, nonce, g.rand32(), g.rand32(), make([]byte, 32), body)
+		msg = buildMessage(0, src, 4, nonce, g.rand32(), g.otherRecipient(), make([]byte, 32), body)
 	}
 	// perturbations of single fields
 	if g.chance(0.3) {
